@@ -192,11 +192,19 @@ func TestBondMachineSharedObjects(t *testing.T) {
 			for _, dg := range pd {
 				t.Logf("%s/%d FINDING parse: %v", c.name, rsize, dg)
 			}
+			if len(defectsOf(pd)) > 0 {
+				// retry like a synthesis tool: skip translate_off regions (SystemVerilog assertions in the channel)
+				d2, pd2 := ParseDesignOpts(files, ParseOpts{HonorTranslateOff: true})
+				if len(defectsOf(pd2)) == 0 {
+					t.Logf("%s/%d: parses cleanly when synthesis translate_off regions are skipped", c.name, rsize)
+					d, pd = d2, nil
+				}
+			}
 			ld := Lint(d, LintOpts{})
 			for _, dg := range ld {
 				t.Logf("%s/%d FINDING lint: %v", c.name, rsize, dg)
 			}
-			if len(pd) > 0 || len(defectsOf(ld)) > 0 {
+			if len(defectsOf(pd)) > 0 || len(defectsOf(ld)) > 0 {
 				continue
 			}
 			s, err := Elaborate(d, "bondmachine", nil)
